@@ -258,6 +258,9 @@ type World struct {
 	// SmallRest, when > 0, gives every output but the first that value and the
 	// first output the remainder (for long chains).
 	SmallRest int64
+	// FirstOutKind1, when > 0, is 1 + the script kind of output 0 of the
+	// transactions added next (the other outputs use the kind given to Add).
+	FirstOutKind1 int
 }
 
 // NewWorld starts an empty universe.
@@ -326,6 +329,7 @@ func (w *World) Add(name string, ins []I, nOut int, outKind int, fee int64) *UTx
 		panic("fee exceeds inputs in " + name)
 	}
 	each := rest / int64(nOut)
+	var kinds []int
 	for i := 0; i < nOut; i++ {
 		v := each
 		if i == nOut-1 {
@@ -343,7 +347,12 @@ func (w *World) Add(name string, ins []I, nOut int, outKind int, fee int64) *UTx
 		if nOut >= 2 && i == nOut-1 {
 			v += w.Skew
 		}
-		tx.AddTxOut(&wire.TxOut{Value: v, PkScript: b.scripts[outKind]})
+		kind := outKind
+		if i == 0 && w.FirstOutKind1 > 0 {
+			kind = w.FirstOutKind1 - 1
+		}
+		kinds = append(kinds, kind)
+		tx.AddTxOut(&wire.TxOut{Value: v, PkScript: b.scripts[kind]})
 		ref.OutVals = append(ref.OutVals, v)
 	}
 	// builder-side signing (txscript helpers are used to construct inputs only)
@@ -381,7 +390,7 @@ func (w *World) Add(name string, ins []I, nOut int, outKind int, fee int64) *UTx
 	b.mu.Lock()
 	for i, v := range ref.OutVals {
 		b.outVal[ref.Out(uint32(i))] = v
-		b.outKind[ref.Out(uint32(i))] = outKind
+		b.outKind[ref.Out(uint32(i))] = kinds[i]
 	}
 	b.mu.Unlock()
 	return u
@@ -499,8 +508,15 @@ func StdWorld(b *Base) *World {
 	w.Add("SE1", []I{{"P0", NoRBF}}, 1, KWPKH, 90000)
 	w.Add("SO", []I{{"SA:1", Final}, {"W1", Final}}, 2, KWPKH, 5000)
 	w.Add("NS", []I{{"K4", Final}}, 2, KWPKH, 5000) // non-standard input script
-	w.Add("NT", []I{{"W2", Final}}, 2, KTrue, 5000) // non-standard output script
-	w.MineSets = [][]string{{"SA"}}
+	// NT is non-standard (its second output is anyone-can-spend) but perfectly
+	// minable; its first output is P2WPKH, so ST, which spends it, is standard.  A
+	// block may confirm NT; when that block is disconnected NT cannot go back into
+	// a standard-policy pool and ST has to leave with it.
+	w.FirstOutKind1 = KWPKH + 1
+	w.Add("NT", []I{{"W2", Final}}, 2, KTrue, 5000)
+	w.FirstOutKind1 = 0
+	w.Add("ST", []I{{"NT:0", Final}}, 1, KWPKH, 3000)
+	w.MineSets = [][]string{{"SA"}, {"NT"}}
 	w.ReorgSets = [][]string{{}}
 	return w.Seal()
 }
